@@ -75,6 +75,19 @@ def schema_request(j):
 def normalise(o):
     """documented defaults of unset optional sub-members: empty transport list -> None; selection sub-defaults"""
     o = copy.deepcopy(o)
+    # records of an RP's own subclass count as the library record they extend (the extra fields are the RP's business)
+    import dataclasses as _dc
+    from webauthn.helpers import structs as _st
+    def _as_base(x):
+        for base in (_st.PublicKeyCredentialDescriptor, _st.AuthenticatorSelectionCriteria):
+            if isinstance(x, base) and type(x) is not base:
+                return base(**{f.name: getattr(x, f.name) for f in _dc.fields(base)})
+        return x
+    for nm in ("exclude_credentials", "allow_credentials"):
+        if getattr(o, nm, None):
+            setattr(o, nm, [_as_base(d) for d in getattr(o, nm)])
+    if getattr(o, "authenticator_selection", None) is not None:
+        o.authenticator_selection = _as_base(o.authenticator_selection)
     for l in (getattr(o, "exclude_credentials", None), getattr(o, "allow_credentials", None)):
         for d in l or []:
             if d.transports == []:
@@ -123,6 +136,10 @@ def run(tier, seed):
             same = [{"id": b"shared-credential-id", "transports": t} for t in (["usb", "nfc"], ["nfc", "usb"], ["ble"], ["ble", "ble"], ["hybrid", "internal", "hybrid"], None, [])]
             rng.shuffle(same)
             a["exclude" if is_reg else "allow"] = same[: rng.randrange(2, len(same) + 1)]
+        if is_reg and i % 6 == 2:
+            # every invisible / format trailer once (names are opaque)
+            k_ = ("rp_name", "user_name", "display_name")[(i // 6) % 3]
+            a[k_] = (a[k_] if isinstance(a[k_], str) and a[k_] else "Lee") + optsim.EDGE_TRAILERS[(i // 6) % len(optsim.EDGE_TRAILERS)]
         arg_shape = optsim.SHAPES[i % len(optsim.SHAPES)]          # (caller values as plain ints / str subclasses / members of the caller's own enums: every generator-reachable object has a JSON text)
         o = webauthn.generate_registration_options(**optsim.shaped(optsim.reg_kwargs(a), arg_shape)) if is_reg else webauthn.generate_authentication_options(**optsim.shaped(optsim.auth_kwargs(a), arg_shape))
         try:
